@@ -6,6 +6,10 @@ Line protocol for C06 (arithmetic, comparison, number literals, number printing)
                              (a unary minus).  Answer: `int <c>e<x>` / `float <c>e<x>` with the decimal
                              NORMALISED (no trailing zeros, zero = 0e0), `true` / `false`,
                              `err:divzero` `err:failed` `err:operands` `err:argkind`, `err:lit`.
+  shared <field> <op> <x> <y> <A> <B>
+                          O  as `bin <op> <x> <y>`, for the field <field> of the shared-operand program
+                             `a: A, b: B, div1: div(a, b), …` (harness/c06_shared.go: every operator applied to
+                             the same two fields in one evaluation); A, B identify the program.
   binrepr <op> <a> <b>    I  representation level: `<kind> <coeff>e<exp> <json text> <cue text>`
                              (exact apd coefficient/exponent, MarshalJSON text, Syntax+format text).
   cmps <op> <x> <y>       O  comparison of strings / bytes / a number: x, y = `s:<hex>` `y:<hex>` `n:<lit>`.
@@ -140,6 +144,7 @@ def handle (ws : List String) : String :=
   match ws with
   | ["bin", op, a, b] => runBin resValue op a b
   | ["binrepr", op, a, b] => runBin resRepr op a b
+  | ["shared", _field, op, x, y, _a, _b] => runBin resValue op x y
   | ["cmps", op, x, y] =>
     match cop? op, val? x, val? y with
     | some c, some vx, some vy => resValue (cmpOp c vx vy)
